@@ -11,7 +11,7 @@
      AUTO with limit <> 0: count n + p n <= limit for every node that received >= 1. *)
 From Coq Require Import String ZArith List Permutation Sorted.
 From Verif Require Import Base.GoInt Base.GoSort Base.GoSortSpec Strategy.Model Strategy.ProofsBase
-  Strategy.ProofsSort Strategy.Proofs Strategy.ProofsOk Strategy.ProofsOld Strategy.Statements Strategy.Glue Strategy.ProofsGlue Strategy.ProofsProj Strategy.ModelW Strategy.ProofsW Strategy.ProofsW2 Calcium.DeployPath Calcium.DeployPathProofs Calcium.DeployPathCaps.
+  Strategy.ProofsSort Strategy.Proofs Strategy.ProofsOk Strategy.ProofsOld Strategy.Statements Strategy.Glue Strategy.ProofsGlue Strategy.ProofsProj Strategy.ModelW Strategy.ProofsW Strategy.ProofsW2 Calcium.DeployPath Calcium.DeployPathProofs Calcium.DeployPathCaps Calcium.DeployPathCommit.
 Local Open Scope Z_scope.
 
 (* full statement, all five strategies, all tables / counts / limits / totals *)
@@ -199,3 +199,17 @@ Theorem C01_path_hyps_discharged :
   path_hyps sortf base maxshare raw req orders nodes caps morder status need limit.
 Proof. exact path_hyps_of_nodes. Qed.
 Print Assumptions C01_path_hyps_discharged.
+
+(* (d) commit step along the path: a node that received instances keeps its capacity and
+   its memory usage grows by exactly planned count * memory request *)
+Theorem C01_path_commit :
+  forall sortf base maxshare (raw req : Types.wreq) orders nodes caps morder status need limit s p n,
+  path_hyps sortf base maxshare raw req orders nodes caps morder status need limit ->
+  deploy_path sortf base maxshare raw orders nodes morder status s need limit = PResult (Ok p) ->
+  In n nodes -> 1 <= mget p (fst n) ->
+  exists info', node_after sortf base maxshare raw orders n (mget p (fst n)) = Some info' /\
+    Types.ni_cap info' = Types.ni_cap (snd n) /\
+    Types.nr_mem (Types.ni_usage info') =
+      Types.nr_mem (Types.ni_usage (snd n)) + mget p (fst n) * Types.rq_mem_req req.
+Proof. exact deploy_path_commit. Qed.
+Print Assumptions C01_path_commit.
